@@ -12,6 +12,9 @@ theorem armOnSuccess_coll? (r : State × Out) (exp : Nat) (c : String) : (armOnS
 theorem armOnSuccess_row? (r : State × Out) (exp : Nat) (c k : String) : (armOnSuccess r exp).1.row? c k = r.1.row? c k := by
   unfold armOnSuccess; split <;> rfl
 
+theorem armOnSuccess_feeds (r : State × Out) (exp : Nat) : (armOnSuccess r exp).1.feeds = r.1.feeds := by
+  unfold armOnSuccess; split <;> rfl
+
 theorem armOnSuccess_snd (r : State × Out) (exp : Nat) : (armOnSuccess r exp).2 = r.2 := by
   unfold armOnSuccess; split <;> rfl
 
